@@ -462,3 +462,79 @@ def long_form_id_becomes_context(rep, rule, prog, cg):
             rep.ok(rule, key, 'every Ok path after the explicit id read stores it in %s' % lasts[0], b.loc())
         else:
             rep.bad(rule, key, bad.loc(), 'compact %s read_field_begin can return a long-form field id without storing it in %s: the next short-form header is then resolved against the id before it (spec: deltas are relative to the previous field id, however that one was encoded)' % (label, lasts[0]))
+
+
+def _const_value(e):
+    """value of a constant integer expression (literals, casts, enum-discriminant arithmetic), else None"""
+    if not isinstance(e, tuple) or not e:
+        return None
+    if e[0] == 'const':
+        return e[1]
+    if e[0] == 'cast':
+        return _const_value(e[3])
+    if e[0] == 'field' and e[2] == '0':
+        return _const_value(e[1])
+    if e[0] == 'bin' and e[1] in ('Add', 'AddWithOverflow'):
+        a, b = _const_value(e[2]), _const_value(e[3])
+        return None if a is None or b is None else a + b
+    return None
+
+
+def compact_bool_element(rep, rule, prog, cg):
+    """a bool that is not carried by a field header (a list/set/map element) is one byte: 1 = true, 2 = false, in both
+    writers; both readers map 1 -> true and 2 -> false"""
+    fam = Fam(prog, cg, 'compact')
+    for label, d in (('BytesMut writer', fam.W), ('LinkedBytes writer', fam.L)):
+        b = d.get('write_bool')
+        key = '%s|compact bool element|%s' % (rule, label)
+        if b is None:
+            rep.anchor_missing(rule, 'compact %s write_bool' % label)
+            continue
+        got = {}
+        unknown = []
+        for cs in b.calls():
+            if cs.name != 'write_byte' or len(cs.t['args']) < 2:
+                continue
+            op = cs.t['args'][1]
+            pl = op.get('mv') or op.get('cp')
+            defs = []
+            if pl is not None and not pl['p']:
+                dd, _ = b.defs
+                defs = [(bi, b.expr_rvalue(payload)) for bi, si, kind, payload in dd.get(pl['l'], []) if kind == 'assign']
+            if not defs:
+                defs = [(cs.bb, cs.arg(1))]
+            for bi, e in defs:
+                v = _const_value(e)
+                truth = None
+                for cond, val, sbb, tb in b.edge_guards(bi):
+                    c = cond
+                    while c[0] in ('cast',):
+                        c = c[3]
+                    if c[0] == 'arg' and c[1] == 2:      # write_bool(&mut self, b: bool)
+                        truth = (val != 0) if isinstance(val, int) else (val == ('not', [0]))
+                if v is None or truth is None:
+                    unknown.append(show(e))
+                else:
+                    got[truth] = v
+        if got == {True: 1, False: 2} and not unknown:
+            rep.ok(rule, key, 'element byte is 1 for true, 2 for false', b.loc())
+        else:
+            rep.bad(rule, key, b.loc(), 'compact %s write_bool writes a bool element as %s%s; the compact protocol (and both pilota readers) use 1 = true, 2 = false' % (label, got, (' / ' + ', '.join(unknown)) if unknown else ''))
+    for label, d in (('in-memory reader', fam.R), ('async reader', fam.A)):
+        r = d.get('read_bool')
+        key = '%s|compact bool element|%s' % (rule, label)
+        if r is None:
+            rep.anchor_missing(rule, 'compact %s read_bool' % label)
+            continue
+        r = codec.effective_body(r, cg)
+        arms = None
+        for bi, bb in enumerate(r.bbs):
+            t = bb['t']
+            if t['k'] == 'switch' and not bb['cleanup'] and t.get('ty') == 'u8':
+                c = r.expr_op(t['o'])
+                if c[0] == 'discr' and c[2].endswith('TCompactType'):
+                    arms = sorted(int(v) for v, _ in t['vals'])
+        if arms == [1, 2]:
+            rep.ok(rule, key, 'accepts the type codes 1 (true) and 2 (false)', r.loc())
+        else:
+            rep.bad(rule, key, r.loc(), 'compact %s read_bool decides a bool element on codes %s; the encoding is 1 = true, 2 = false' % (label, arms))
